@@ -60,7 +60,7 @@ var legalNames = []string{"a", "b", "c", "d", "e", "k", "x y", "Ω", "colcol-tem
 var illegalNames = []string{"", "$a", "'q'", "\"qq\""}
 
 var strAlphabet = []string{"", "a", "b", "ab", "B", "abc", "b,c", "q\"t", "x\ny", " lead", "é", "ı", "\x00", "\xff\xfe", "zz", "A",
-	"a\ufffdb", "\u2028", "l\u2029", "t\tb", "back\\slash", "\x7f", "<&>", "\x1f", "日本", "\xe2\x82"}
+	"a\ufffdb", "\u2028", "l\u2029", "t\tb", "back\\slash", "\x7f", "<&>", "\x1f", "日本", "\xe2\x82", "x\n", "\n", "a\n\n"}
 var intAlphabet = []int{0, 1, -1, 2, 3, 7, 100, -100, math.MaxInt64, math.MinInt64}
 var floatBits = []uint64{
 	0x0000000000000000, 0x8000000000000000, 0x3ff0000000000000, 0xbff0000000000000, 0x4000000000000000,
@@ -108,10 +108,15 @@ func (g *gen) genFloatBits() uint64 {
 		}
 		return 0x7ff8000000000001
 	}
-	if g.wide && g.r.P(1, 3) {
-		b := g.r.U64()
+	if (g.wide && g.r.P(1, 3)) || (g.opt["floatheavy"] != "" && g.r.P(2, 3)) {
+		// structured floats: exponent sweeps with boundary mantissas (powers of two and their neighbours), exact integers
+		// beyond 2^53, powers of ten and neighbours, short decimals, subnormals, random bit patterns
+		b := genFloatForRyu(g.r)
 		if isNaNBits(b) {
 			b &^= 0x7ff0000000000000
+		}
+		if b&0x7fffffffffffffff == 0x7ff0000000000000 && g.r.P(3, 4) {
+			b ^= 1 << 62 // mostly keep the frame free of infinities (outside the quantifier of the JSON properties)
 		}
 		return b
 	}
@@ -164,6 +169,8 @@ func (g *gen) genNew() {
 	ncols := 1 + r.Intn(4)
 	if r.P(1, 25) {
 		ncols = 0
+	} else if r.P(1, 30) {
+		ncols = 10 + r.Intn(3) // wide frames (two-digit column positions)
 	}
 	g.nullP = r.PickInt([]int{0, 1, 1, 3, 5})
 	g.wide = r.P(1, 4)
@@ -204,6 +211,9 @@ func (g *gen) genNew() {
 		kind := r.Pick([]string{"I", "I", "F", "F", "B", "S", "S", "T", "EN", "EN", "CI", "CF", "CB", "CS"})
 		if g.opt["enumheavy"] != "" && r.P(1, 2) {
 			kind = r.Pick([]string{"EN", "EN", "ENBIG"})
+		}
+		if g.opt["floatheavy"] != "" && r.P(2, 3) {
+			kind = "F"
 		}
 		if kind == "ENBIG" && c > 0 {
 			kind = "EN"
@@ -1452,6 +1462,11 @@ func (g *gen) genExpr(f *hframe, depth int, typ string, bad bool) exprT {
 		args[i] = a.e
 		toks = append(toks, a.toks...)
 	}
+	if n >= 3 && r.Bool() {
+		// the operands are handed over as a slice that the caller goes on using: a second expression built from the
+		// same slice must see the operands as written
+		_ = qframe.Expr(op, args...)
+	}
 	return exprT{qframe.Expr(op, args...), toks}
 }
 
@@ -1680,11 +1695,16 @@ func (g *gen) genOp() {
 		g.finish(fid, func() qframe.QFrame { return g.qfOf(src).Slice(a, b) })
 	case "select", "drop":
 		k := r.Intn(4)
+		if op == "drop" && r.P(1, 4) {
+			k = 2 + r.Intn(5) // long requests naming columns more than once
+		}
 		names := []string{}
 		for i := 0; i < k && len(src.cols) > 0; i++ {
 			names = append(names, src.cols[r.Intn(len(src.cols))].name)
 		}
-		names = dedupNames(names) // duplicate names in one Select are outside the documented use
+		if op == "select" {
+			names = dedupNames(names) // duplicate names in one Select are outside the documented use
+		}
 		if bad {
 			names = append(names, "nosuch")
 		}
